@@ -438,6 +438,12 @@ class SimpleAsn1Type(Asn1Type):
             initializers['tagSet'] = self.tagSet.tagExplicitly(explicitTag)
 
         for arg, option in kwargs.items():
+            if (arg == 'subtypeSpec' and not isinstance(
+                    initializers[arg], constraint.ConstraintsIntersection)):
+                # adding to anything but an intersection would not narrow it
+                initializers[arg] = constraint.ConstraintsIntersection(
+                    initializers[arg])
+
             initializers[arg] += option
 
         return self.__class__(value, **initializers)
@@ -667,6 +673,12 @@ class ConstructedAsn1Type(Asn1Type):
             initializers['tagSet'] = self.tagSet.tagExplicitly(explicitTag)
 
         for arg, option in kwargs.items():
+            if (arg == 'subtypeSpec' and not isinstance(
+                    initializers[arg], constraint.ConstraintsIntersection)):
+                # adding to anything but an intersection would not narrow it
+                initializers[arg] = constraint.ConstraintsIntersection(
+                    initializers[arg])
+
             initializers[arg] += option
 
         clone = self.__class__(**initializers)
